@@ -163,7 +163,7 @@ class Prop:
                     v = r.choice([d, -d - 1])
                 item.append(v)
             elif x < 0.65:
-                n = lens if r.random() < 0.85 else r.choice([1, 2, 3])
+                n = lens if r.random() < 0.85 else r.choice([0, 1, 2, 3])  # now and then an empty list: an empty selection
                 item.append({"l": [r.randrange(-d, d) for _ in range(n)]})
             else:
                 a = r.choice([None, None, 0, r.randint(-d - 1, d + 1)])
@@ -195,7 +195,7 @@ class Prop:
             elif flavour == "scalars" or x < 0.5:
                 item.append(r.randrange(K))
             elif x < 0.65:
-                n = lens if r.random() < 0.85 else r.choice([1, 2, 3])
+                n = lens if r.random() < 0.85 else r.choice([0, 1, 2, 3])
                 item.append({"l": [r.randrange(K) for _ in range(n)]})
             else:
                 b = r.randint(0, K)
